@@ -776,10 +776,11 @@ func (sc *serverConn) closeStream(st *stream, err error) {
 	delete(sc.streams, st.id)
 	if p := st.body; p != nil {
 		// Return the session-level flow control of the bytes that are
-		// buffered but were never read by the handler, otherwise the
-		// session window shrinks for good with every request whose body
-		// is not consumed.
-		sc.sendWindowUpdate(nil, p.Len())
+		// buffered but were never read by the handler, and drop them:
+		// otherwise the session window shrinks for good with every request
+		// whose body is not consumed, and bytes a handler reads at this
+		// very moment would be given back twice.
+		sc.sendWindowUpdate(nil, p.DiscardWithError(err))
 
 		p.CloseWithError(err)
 		p.Release(&fixBufferPool)
